@@ -354,6 +354,8 @@ def facade_radius_stream(ctx):
 
 def run(ctx):
     rng = ctx.rng
+    from props import toolrun_lib
+    toolrun_lib.stream(ctx, only_kinds=('heavy', 'one-heavy', 'track', 'grown-ignore', 'light-nofast'))
     facade_radius_stream(ctx)
     cj = corpus(rng)
     for job, res in zip(cj, pipe.run_jobs(cj)):
@@ -367,6 +369,9 @@ def run(ctx):
 
 
 def replay_case(ctx, case):
+    if case.get('stream') == 'toolrun':
+        from props import toolrun_lib
+        return toolrun_lib.replay(ctx, case)
     if case.get('kind') == 'facade-wrapper':
         impl, model, ia = facade_wrapper_case(ctx, case['algo'], case['n'], case['k'], bytes.fromhex(case['m']), bytes.fromhex(case['e']), case.get('er'))
         return {'holds': True, 'implementation': impl, 'model': model, 'inner_answer': [x.hex() for x in ia] if ia else None,
@@ -388,6 +393,8 @@ def replay_case(ctx, case):
 
 
 def shrink(ctx, case):
+    if case.get('stream') == 'toolrun':
+        return case
     def bad(c):
         r = pipe.run_jobs([c])[0]
         return bool(r.get('ok')) and bool(predicate(c, r))
